@@ -9,8 +9,8 @@ import vrun
 from props import _nfamily
 from common import cerberus, real_error, canon_errors
 
-LEVEL = "exploration"
-COQ_FILES = ["theories/Model/Normalize.v"]
+LEVEL = "proof"
+COQ_FILES = ["theories/Model/Normalize.v", "theories/Properties/C06.v"]
 FACT_GROUPS = ["F11", "F16"]
 ALLOWED_AXIOMS = []
 TRUSTED_BASE = _nfamily.BASE_TRUSTED + ["oracle: the API agreement relations evaluated on fresh real validators"]
